@@ -251,7 +251,20 @@ impl ConnectionState {
                 // we will have removed the slot when we got the close. It is therefore not
                 // an error to get a CloseOk for a nonexistent slot, since the server is
                 // confirming that a channel is gone (and we don't have it anymore anyway).
-                if let Ok(mut slot) = slot_remove(inner, n) {
+                //
+                // The same race has a second half: once the server's Close has freed the
+                // id, the application may open a new channel with it before the CloseOk
+                // for our (crossed) Close arrives. That CloseOk answers the previous
+                // incarnation; the new one cannot have sent a Close before its OpenOk has
+                // arrived, so leave it alone.
+                let stale = inner
+                    .chan_slots
+                    .get(n)
+                    .map(|slot| slot.awaiting_open_ok)
+                    .unwrap_or(false);
+                if stale {
+                    debug!("ignoring close-ok for previous incarnation of channel {}", n);
+                } else if let Ok(mut slot) = slot_remove(inner, n) {
                     send(
                         &slot.tx,
                         Ok(ChannelMessage::Method(AMQPClass::Channel(
@@ -355,10 +368,15 @@ impl ConnectionState {
                 };
                 try_send_confirm(slot, Confirm::Nack(confirm));
             }
+            // Server ack for channel open.
+            AMQPFrame::Method(n, method @ AMQPClass::Channel(AmqpChannel::OpenOk(_))) => {
+                let slot = slot_get_mut(inner, n)?;
+                slot.awaiting_open_ok = false;
+                send(&slot.tx, Ok(ChannelMessage::Method(method)))?;
+            }
             // Generic ack messages we send back to the caller.
             AMQPFrame::Method(n, method @ AMQPClass::Basic(AmqpBasic::QosOk(_)))
             | AMQPFrame::Method(n, method @ AMQPClass::Basic(AmqpBasic::RecoverOk(_)))
-            | AMQPFrame::Method(n, method @ AMQPClass::Channel(AmqpChannel::OpenOk(_)))
             | AMQPFrame::Method(n, method @ AMQPClass::Confirm(AmqpConfirm::SelectOk(_)))
             | AMQPFrame::Method(n, method @ AMQPClass::Exchange(AmqpExchange::DeclareOk(_)))
             | AMQPFrame::Method(n, method @ AMQPClass::Exchange(AmqpExchange::DeleteOk(_)))
